@@ -6,7 +6,8 @@
 From Coq Require Import String.
 From Boltons Require Import Lib.Prelude Lib.C06_Text Spec.C06_Spec Model.C06_Model Gen.C06_Gen
   Proofs.C06_Codec Proofs.C06_Utf8 Proofs.C06_Quote Proofs.C06_Lists Proofs.C06_Round Proofs.C06_Legal
-  Proofs.C06_QuoteMin Proofs.C06_Parts Proofs.C06_RoundMin Proofs.C06_Total Proofs.C06_GenOk.
+  Proofs.C06_Shape Proofs.C06_Parsed Proofs.C06_QuoteMin Proofs.C06_Parts Proofs.C06_RoundMin Proofs.C06_Total
+  Proofs.C06_GenOk.
 Open Scope N_scope.
 
 (* (T) the regenerated tables: every map entry is the byte itself or %XX, a byte is left
@@ -73,7 +74,7 @@ Example C06_ex_unquote :
   unquote gen_tables (Tx "%41%zz%4%%C3%A9%FF%E2%82") = Tx "A%zz%4%" ++ [233; 65533; 65533].
 Proof. vm_compute. reflexivity. Qed.
 
-(* THE ROUND TRIP.  A URL with a scheme, a name/IPv4 host, an absent or 0..65535 port, an absolute
+(* THE ROUND TRIP.  A URL with a scheme, a name/IPv4 host, a well-formed port (port_wf: absent, or e.g. any of 0..65535), an absolute
    path, any username, password, path segments, query pairs (key with optional value) and
    fragment: to_text(full_quote=True) succeeds, URL() of that text succeeds, and every
    component comes back as its NFC form - nothing leaks into a neighbour (scheme, host and port
@@ -94,7 +95,7 @@ Theorem C06_roundtrip : forall T O, tables_ok T = true ->
   host <> [] -> (fam =? 6) = false -> memN 58 host = false -> o_idna_enc O host = MOk ht ->
   ht <> [] -> forallb (not_in [58; 64; 47; 63; 35]) ht = true -> o_inet4 O ht = MOk b4 ->
   (if all_ascii ht then o_idna_dec O ht = MOk h2 else h2 = ht) ->
-  match port with Some p => (0 <= p < 65536)%Z | None => True end ->
+  port_wf port = true ->
   exists full u',
     to_text T O true u = MOk full /\ url_init T O full = MOk u' /\
     u_user u' = nfc user /\ u_pass u' = nfc pw /\ u_path u' = map nfc ([] :: rest) /\
@@ -116,6 +117,13 @@ Example C06_ex_roundtrip :
      = MOk (u_user u, u_pass u, u_path u, u_query u, u_frag u).
 Proof. vm_compute. split; reflexivity. Qed.
 
+(* port_wf is a decidable condition on the port (absent, or its decimal rendering is read back by
+   int()); Proofs/C06_Ports.v proves  forall p, 0 <= p < 65536 -> port_wf (Some p) = true  by exhaustive
+   vm_compute (kept outside this file's dependencies: coqchk, which has no VM, needs > 30 min for it) *)
+Example C06_ex_ports :
+  forallb (fun p => port_wf (Some p)) [0; 1; 21; 22; 80; 443; 8080; 9418; 65535; 99999]%Z = true /\ port_wf None = true.
+Proof. vm_compute. split; reflexivity. Qed.
+
 (* THE ROUND TRIP FOR IPv6 HOSTS: a host with a ':' (rendered in brackets whatever the family
    attribute says), none of ] @ / ? #, accepted by inet_pton(AF_INET6) *)
 Theorem C06_roundtrip_v6 : forall T O, tables_ok T = true ->
@@ -129,7 +137,7 @@ Theorem C06_roundtrip_v6 : forall T O, tables_ok T = true ->
   Forall (C06_Round.pair_ok O) q ->
   memN 58 host = true -> forallb (not_in [93; 64; 47; 63; 35]) host = true ->
   o_inet6 O host = MOk V6Ok -> decode_host O host = MOk h2 ->
-  match port with Some p => (0 <= p < 65536)%Z | None => True end ->
+  port_wf port = true ->
   exists full u',
     to_text T O true u = MOk full /\ url_init T O full = MOk u' /\
     u_user u' = nfc user /\ u_pass u' = nfc pw /\ u_path u' = map nfc ([] :: rest) /\
@@ -163,7 +171,7 @@ Theorem C06_rendered_legal : forall T O, tables_ok T = true ->
   Forall (C06_Round.pair_ok O) q ->
   host <> [] -> (fam =? 6) = false -> memN 58 host = false -> o_idna_enc O host = MOk ht ->
   ht <> [] -> forallb (not_in [58; 64; 47; 63; 35]) ht = true -> legal (ok_regname false) ht = true ->
-  match port with Some p => (0 <= p < 65536)%Z | None => True end ->
+  port_wf port = true ->
   forall full, to_text T O true u = MOk full -> wf_ref false full = true.
 Proof. exact rendered_legal. Qed.
 Print Assumptions C06_rendered_legal.
@@ -178,7 +186,7 @@ Theorem C06_rendered_legal_v6 : forall T O, tables_ok T = true ->
   Forall (fun s => all_scalar (nfc s) = true) rest ->
   Forall (C06_Round.pair_ok O) q ->
   memN 58 host = true -> forallb (fun c => hexdig c || memN c [58; 46]) host = true ->
-  match port with Some p => (0 <= p < 65536)%Z | None => True end ->
+  port_wf port = true ->
   forall full, to_text T O true u = MOk full -> wf_ref false full = true.
 Proof. exact rendered_legal_v6. Qed.
 Print Assumptions C06_rendered_legal_v6.
@@ -201,11 +209,40 @@ Theorem C06_fixpoint_full_partial : forall T O, tables_ok T = true ->
   ht <> [] -> forallb (not_in [58; 64; 47; 63; 35]) ht = true -> o_inet4 O ht = MOk b4 ->
   (if all_ascii ht then o_idna_dec O ht = MOk h2 else h2 = ht) ->
   h2 <> [] -> memN 58 h2 = false -> o_idna_enc O h2 = MOk ht ->
-  match port with Some p => (0 <= p < 65536)%Z | None => True end ->
+  port_wf port = true ->
   forall full u', to_text T O true u = MOk full -> url_init T O full = MOk u' ->
   to_text T O true u' = MOk full.
 Proof. exact fixpoint_full_class. Qed.
 Print Assumptions C06_fixpoint_full_partial.
+
+(* every URL that URL(text) returns is of the shape those theorems speak about as soon as the text
+   had a scheme and an authority: scheme without : / ? #, path_parts starting with '' *)
+Theorem C06_parsed_shape : forall T O t u, url_init T O t = MOk u ->
+  (u_scheme u <> [] -> forallb (not_in [58; 47; 63; 35]) (u_scheme u) = true) /\
+  (u_sep u = true -> exists rest, u_path u = [] :: rest).
+Proof. exact parsed_shape. Qed.
+Print Assumptions C06_parsed_shape.
+
+(* ... hence the fixed point in the form the property states it: for u = URL(t), any text t with a
+   scheme and an authority (name/IPv4 host).  _partial: relative references, authority-less and
+   scheme-less forms are not covered (checked per case). *)
+Theorem C06_fixpoint_full_parsed_partial : forall T O, tables_ok T = true ->
+  forall t u ht b4 h2,
+  let nfc := o_nfc O in
+  url_init T O t = MOk u ->
+  u_scheme u <> [] -> u_sep u = true ->
+  nfc [] = [] -> (forall x, nfc (nfc x) = nfc x) -> (forall x, nfc x = [] -> x = []) ->
+  all_scalar (nfc (u_user u)) = true -> all_scalar (nfc (u_pass u)) = true -> all_scalar (nfc (u_frag u)) = true ->
+  Forall (fun s => all_scalar (nfc s) = true) (tl (u_path u)) ->
+  Forall (C06_Round.pair_ok O) (u_query u) ->
+  u_host u <> [] -> (u_family u =? 6) = false -> memN 58 (u_host u) = false -> o_idna_enc O (u_host u) = MOk ht ->
+  ht <> [] -> forallb (not_in [58; 64; 47; 63; 35]) ht = true -> o_inet4 O ht = MOk b4 ->
+  (if all_ascii ht then o_idna_dec O ht = MOk h2 else h2 = ht) ->
+  h2 <> [] -> memN 58 h2 = false -> o_idna_enc O h2 = MOk ht ->
+  port_wf (u_port u) = true ->
+  forall t1 u1, to_text T O true u = MOk t1 -> url_init T O t1 = MOk u1 -> to_text T O true u1 = MOk t1.
+Proof. exact fixpoint_full_parsed. Qed.
+Print Assumptions C06_fixpoint_full_parsed_partial.
 
 Theorem C06_fixpoint_full_v6_partial : forall T O, tables_ok T = true ->
   forall scheme sep user pw fam host port rest q frag,
@@ -218,7 +255,7 @@ Theorem C06_fixpoint_full_v6_partial : forall T O, tables_ok T = true ->
   Forall (C06_Round.pair_ok O) q ->
   memN 58 host = true -> forallb (not_in [93; 64; 47; 63; 35]) host = true ->
   o_inet6 O host = MOk V6Ok -> decode_host O host = MOk host ->
-  match port with Some p => (0 <= p < 65536)%Z | None => True end ->
+  port_wf port = true ->
   forall full u', to_text T O true u = MOk full -> url_init T O full = MOk u' ->
   to_text T O true u' = MOk full.
 Proof. exact fixpoint_full_v6. Qed.
@@ -249,7 +286,7 @@ Theorem C06_roundtrip_min : forall T O, tables_ok T = true -> delims_ok T = true
   Forall nopct rest -> Forall pair_okm q -> nopct frag ->
   host <> [] -> (fam =? 6) = false -> forallb (not_in [58; 64; 47; 63; 35]) host = true ->
   o_inet4 O host = MOk b4 -> decode_host O host = MOk h2 ->
-  match port with Some p => (0 <= p < 65536)%Z | None => True end ->
+  port_wf port = true ->
   to_text T O false u = MOk (rendered_min T O host (port_text T u) scheme user pw ([] :: rest) q frag) /\
   url_init T O (rendered_min T O host (port_text T u) scheme user pw ([] :: rest) q frag)
   = MOk (mkU scheme true (nfc user) (nfc pw) (if b4 then 4 else 0) h2 (port_back T u) ([] :: rest) q frag).
@@ -268,7 +305,7 @@ Theorem C06_fixpoint_min_partial : forall T O, tables_ok T = true -> delims_ok T
   Forall nopct rest -> Forall pair_okm q -> nopct frag ->
   host <> [] -> (fam =? 6) = false -> forallb (not_in [58; 64; 47; 63; 35]) host = true ->
   o_inet4 O host = MOk b4 -> decode_host O host = MOk host ->
-  match port with Some p => (0 <= p < 65536)%Z | None => True end ->
+  port_wf port = true ->
   forall m u', to_text T O false u = MOk m -> url_init T O m = MOk u' -> to_text T O false u' = MOk m.
 Proof. exact fixpoint_min_class. Qed.
 Print Assumptions C06_fixpoint_min_partial.
@@ -279,6 +316,21 @@ Example C06_ex_min :
   /\ (do u' <- url_init gen_tables id_oracles (Tx "http://u%20s@h.com/a b%2Fc%3F/" ++ [233] ++ Tx "?k%26=v%3D%3B#f%23g");
       MOk (u_user u', u_path u', u_query u', u_frag u')) = MOk (u_user u, u_path u, u_query u, u_frag u).
 Proof. vm_compute. split; reflexivity. Qed.
+
+Theorem C06_fixpoint_min_parsed_partial : forall T O, tables_ok T = true -> delims_ok T = true ->
+  forall t u b4,
+  let nfc := o_nfc O in
+  url_init T O t = MOk u ->
+  u_scheme u <> [] -> u_sep u = true ->
+  nfc [] = [] -> (forall x, nfc (nfc x) = nfc x) -> (forall x, nfc x = [] -> x = []) ->
+  all_scalar (nfc (u_user u)) = true -> all_scalar (nfc (u_pass u)) = true ->
+  Forall nopct (tl (u_path u)) -> Forall pair_okm (u_query u) -> nopct (u_frag u) ->
+  u_host u <> [] -> (u_family u =? 6) = false -> forallb (not_in [58; 64; 47; 63; 35]) (u_host u) = true ->
+  o_inet4 O (u_host u) = MOk b4 -> decode_host O (u_host u) = MOk (u_host u) ->
+  port_wf (u_port u) = true ->
+  forall m u1, to_text T O false u = MOk m -> url_init T O m = MOk u1 -> to_text T O false u1 = MOk m.
+Proof. exact fixpoint_min_parsed. Qed.
+Print Assumptions C06_fixpoint_min_parsed_partial.
 
 (* when every codec answers (ok or error), URL(text) is a URL or URLParseError: nothing else, and
    nothing outside the model *)
